@@ -341,6 +341,8 @@ def check_ranges(ctx, rep):
         if p.exit == 'return':
             r = p.env.get('_0')
             ok = r[0] == 'call' and r[1] == S + 'Context::max_size'
+    from rules import c09
+    c09.check_visibility(ctx, rep, 'R02.6')
     rep.ob(ok, 'R02.6', lfn.path, 'returns max_size', 'the frame size handed to Object::function is the context max_size', lfn.loc())
 
 
